@@ -1,9 +1,9 @@
 /-
   AY.Lemmas.C04Filter — `filter_nodes` on arbitrary trees (any class, any flags):
-  * when the condition holds for no node below the root, every child is removed (`filterNode_noneKept`);
-  * a priority bound that makes `maybe_keep` fail everywhere (`noneKept_of_prio`);
+  * when the condition holds for no node below the root, every child is removed (`c04_filterNode_noneKept`);
+  * a priority bound that makes `maybe_keep` fail everywhere (`c04_noneKept_of_prio`);
   * one level of a mapping: the surviving children are exactly the marked ones, in order
-    (`filterNode_dict_kept`).
+    (`c04_filterNode_dict_kept`).
   Well-formedness used for the list family: children numbered `0 … n-1` (`wfKeys`).
 -/
 import AY.Lemmas.Filter
@@ -56,7 +56,7 @@ end
 /-! ### a condition that holds nowhere below the root -/
 
 mutual
-theorem filterNode_noneKept (cond : Path → Node → Bool) :
+theorem c04_filterNode_noneKept (cond : Path → Node → Bool) :
     ∀ (pre : Path) (n : Node), wfKeys n = true → noneKept cond pre n = true →
       (filterNode cond pre n).1.children = []
   | pre, .leaf f k, _, _ => by simp [filterNode, Node.children]
@@ -64,7 +64,7 @@ theorem filterNode_noneKept (cond : Path → Node → Bool) :
     have hw' : (k.isDictFam = true ∨ listKeys 0 cs = true) ∧ wfKeysList cs = true := by
       simpa [wfKeys] using hw
     have hn' : noneKeptList cond pre cs = true := by simpa [noneKept] using hn
-    obtain ⟨h1, h2, h3⟩ := filterList_noneKept cond pre 0 cs hw'.2 hn'
+    obtain ⟨h1, h2, h3⟩ := c04_filterList_noneKept cond pre 0 cs hw'.2 hn'
     obtain ⟨e1, e2⟩ := keysOf_dropMarks_of_none _ h1
     simp only [filterNode, Node.children, e1]
     cases hk : k.isDictFam with
@@ -77,7 +77,7 @@ theorem filterNode_noneKept (cond : Path → Node → Bool) :
       have hl' : listKeys 0 (dropMarks (filterList cond pre cs).1) = true := by rw [h3]; exact hl
       rw [keysOf_listKeys 0 _ hl']
       exact removeMany_list_all f k hk _ _ rfl
-theorem filterList_noneKept (cond : Path → Node → Bool) :
+theorem c04_filterList_noneKept (cond : Path → Node → Bool) :
     ∀ (pre : Path) (i : Nat) (cs : List (Key × Node)), wfKeysList cs = true →
       noneKeptList cond pre cs = true →
       (∀ x ∈ (filterList cond pre cs).1, x.2.2 = false) ∧
@@ -88,8 +88,8 @@ theorem filterList_noneKept (cond : Path → Node → Bool) :
     have hw' : wfKeys child = true ∧ wfKeysList rest = true := by simpa [wfKeysList] using hw
     have hn' : (cond (pre ++ [name]) child = false ∧ noneKept cond (pre ++ [name]) child = true) ∧
         noneKeptList cond pre rest = true := by simpa [noneKeptList] using hn
-    have e := filterNode_noneKept cond (pre ++ [name]) child hw'.1 hn'.1.2
-    obtain ⟨r1, r2, r3⟩ := filterList_noneKept cond pre (i + 1) rest hw'.2 hn'.2
+    have e := c04_filterNode_noneKept cond (pre ++ [name]) child hw'.1 hn'.1.2
+    obtain ⟨r1, r2, r3⟩ := c04_filterList_noneKept cond pre (i + 1) rest hw'.2 hn'.2
     simp only [filterList, dropMarks, listKeys, List.length_cons, r2, r3, hn'.1.1, e,
       List.isEmpty_nil, Bool.not_true, Bool.and_false, Bool.or_false, and_true]
     intro x hx
@@ -99,39 +99,39 @@ theorem filterList_noneKept (cond : Path → Node → Bool) :
 end
 
 /-- the filtered root keeps its flags and class and loses every child -/
-theorem filterNode_noneKept_comp (cond : Path → Node → Bool) (pre : Path) {f k cs}
+theorem c04_filterNode_noneKept_comp (cond : Path → Node → Bool) (pre : Path) {f k cs}
     (hw : wfKeys (.comp f k cs) = true) (hn : noneKeptList cond pre cs = true) :
     (filterNode cond pre (.comp f k cs)).1 = .comp f k [] := by
-  have := filterNode_noneKept cond pre (.comp f k cs) hw (by simpa [noneKept] using hn)
+  have := c04_filterNode_noneKept cond pre (.comp f k cs) hw (by simpa [noneKept] using hn)
   simp only [filterNode, Node.children] at this ⊢
   rw [this]
 
 /-! ### `maybe_keep` fails when no priority of `self` exceeds a priority of `other` -/
 
-theorem prioGe_flags {b : Int} {n : Node} (h : prioGe b n = true) : b ≤ ePrio n.flags := by
+theorem c04_prioGe_flags {b : Int} {n : Node} (h : prioGe b n = true) : b ≤ ePrio n.flags := by
   cases n with
   | leaf f k => simpa [prioGe, Node.flags] using h
   | comp f k cs =>
     have : b ≤ ePrio f ∧ prioGeList b cs = true := by simpa [prioGe] using h
     exact this.1
 
-theorem prioLe_flags {b : Int} {n : Node} (h : prioLe b n = true) : ePrio n.flags ≤ b := by
+theorem c04_prioLe_flags {b : Int} {n : Node} (h : prioLe b n = true) : ePrio n.flags ≤ b := by
   cases n with
   | leaf f k => simpa [prioLe, Node.flags] using h
   | comp f k cs =>
     have : ePrio f ≤ b ∧ prioLeList b cs = true := by simpa [prioLe] using h
     exact this.1
 
-theorem alookup_prioGe (b : Int) (key : Key) : ∀ cs : List (Key × Node), prioGeList b cs = true →
+theorem c04_alookup_prioGe (b : Int) (key : Key) : ∀ cs : List (Key × Node), prioGeList b cs = true →
     ∀ c, alookup key cs = some c → prioGe b c = true
   | [], _, c, h => by simp [alookup] at h
   | (k', v') :: r, hp, c, h => by
     have h' : prioGe b v' = true ∧ prioGeList b r = true := by simpa [prioGeList] using hp
     by_cases hk : k' = key
     · simp [alookup, hk] at h; subst h; exact h'.1
-    · simp [alookup, hk] at h; exact alookup_prioGe b key r h'.2 c h
+    · simp [alookup, hk] at h; exact c04_alookup_prioGe b key r h'.2 c h
 
-theorem prioGe_firstNotMissing (b : Int) : ∀ (p : Path) (n : Node), prioGe b n = true →
+theorem c04_prioGe_firstNotMissing (b : Int) : ∀ (p : Path) (n : Node), prioGe b n = true →
     prioGe b (firstNotMissing n p) = true
   | [], n, h => by cases n <;> simpa [firstNotMissing] using h
   | key :: rest, .leaf f k, h => by simpa [firstNotMissing] using h
@@ -141,41 +141,41 @@ theorem prioGe_firstNotMissing (b : Int) : ∀ (p : Path) (n : Node), prioGe b n
     | none => exact h
     | some c =>
       have : b ≤ ePrio f ∧ prioGeList b cs = true := by simpa [prioGe] using h
-      exact prioGe_firstNotMissing b rest c (alookup_prioGe b key cs this.2 c hl)
+      exact c04_prioGe_firstNotMissing b rest c (c04_alookup_prioGe b key cs this.2 c hl)
 
-theorem hasPrio_false_of_le {a b : Flags} (h : ePrio a ≤ ePrio b) : hasPrio a b false = false := by
+theorem c04_hasPrio_false_of_le {a b : Flags} (h : ePrio a ≤ ePrio b) : hasPrio a b false = false := by
   unfold hasPrio
   split
   · rfl
   · simp only [decide_eq_false_iff_not]; omega
 
-theorem maybeKeep_of_prio {b : Int} {o : Node} (ho : prioGe b o = true) (p : Path) {m : Node}
+theorem c04_maybeKeep_of_prio {b : Int} {o : Node} (ho : prioGe b o = true) (p : Path) {m : Node}
     (hm : prioLe b m = true) : maybeKeep o p m = false := by
-  have h1 := prioGe_flags (prioGe_firstNotMissing b p o ho)
-  have h2 := prioLe_flags hm
-  exact hasPrio_false_of_le (by omega)
+  have h1 := c04_prioGe_flags (c04_prioGe_firstNotMissing b p o ho)
+  have h2 := c04_prioLe_flags hm
+  exact c04_hasPrio_false_of_le (by omega)
 
 mutual
-theorem noneKept_of_prio {b : Int} {o : Node} (ho : prioGe b o = true) :
+theorem c04_noneKept_of_prio {b : Int} {o : Node} (ho : prioGe b o = true) :
     ∀ (pre : Path) (n : Node), prioLe b n = true → noneKept (maybeKeep o) pre n = true
   | _, .leaf .., _ => rfl
   | pre, .comp f k cs, h => by
     have : ePrio f ≤ b ∧ prioLeList b cs = true := by simpa [prioLe] using h
-    simpa [noneKept] using noneKeptList_of_prio ho pre cs this.2
-theorem noneKeptList_of_prio {b : Int} {o : Node} (ho : prioGe b o = true) :
+    simpa [noneKept] using c04_noneKeptList_of_prio ho pre cs this.2
+theorem c04_noneKeptList_of_prio {b : Int} {o : Node} (ho : prioGe b o = true) :
     ∀ (pre : Path) (cs : List (Key × Node)), prioLeList b cs = true →
       noneKeptList (maybeKeep o) pre cs = true
   | _, [], _ => rfl
   | pre, (name, c) :: rest, h => by
     have h' : prioLe b c = true ∧ prioLeList b rest = true := by simpa [prioLeList] using h
-    simp [noneKeptList, maybeKeep_of_prio ho _ h'.1, noneKept_of_prio ho _ c h'.1,
-      noneKeptList_of_prio ho pre rest h'.2]
+    simp [noneKeptList, c04_maybeKeep_of_prio ho _ h'.1, c04_noneKept_of_prio ho _ c h'.1,
+      c04_noneKeptList_of_prio ho pre rest h'.2]
 end
 
 /-! ### `_require_all_new` is monotone in its exceptions -/
 
 mutual
-theorem reqNew_none_mono (exc : List Path) :
+theorem c04_reqNew_none_mono (exc : List Path) :
     ∀ (p : Path) (n : Node), reqNew [] p n = none → reqNew exc p n = none
   | p, .leaf f k, h => by
     have : eNew f = true := by
@@ -189,8 +189,8 @@ theorem reqNew_none_mono (exc : List Path) :
       | true => rfl
       | false => simp [reqNew, hf] at h
     have hl : reqNewList [] p cs = none := by simpa [reqNew, hf] using h
-    simp [reqNew, hf, reqNewList_none_mono exc p cs hl]
-theorem reqNewList_none_mono (exc : List Path) :
+    simp [reqNew, hf, c04_reqNewList_none_mono exc p cs hl]
+theorem c04_reqNewList_none_mono (exc : List Path) :
     ∀ (p : Path) (cs : List (Key × Node)), reqNewList [] p cs = none → reqNewList exc p cs = none
   | _, [], _ => rfl
   | p, (k, c) :: rest, h => by
@@ -199,13 +199,13 @@ theorem reqNewList_none_mono (exc : List Path) :
     | some q => simp [h1] at h
     | none =>
       simp only [h1] at h
-      simp [reqNew_none_mono exc (p ++ [k]) c h1, reqNewList_none_mono exc p rest h]
+      simp [c04_reqNew_none_mono exc (p ++ [k]) c h1, c04_reqNewList_none_mono exc p rest h]
 end
 
 /-- the root itself is always excepted in the early-exit branch of the merge -/
-theorem reqNew_root_excepted (exc : List Path) {f k cs} (h : reqNewList [] [] cs = none) :
+theorem c04_reqNew_root_excepted (exc : List Path) {f k cs} (h : reqNewList [] [] cs = none) :
     reqNew ([] :: exc) [] (.comp f k cs) = none := by
-  simp [reqNew, reqNewList_none_mono ([] :: exc) [] cs h]
+  simp [reqNew, c04_reqNewList_none_mono ([] :: exc) [] cs h]
 
 /-! ### one level of a mapping with distinct keys: the marked children survive, in order -/
 
@@ -224,27 +224,27 @@ def keptMarks : List (Key × Node × Bool) → List (Key × Node)
   | [] => []
   | (k, n, keep) :: rest => if keep then (k, n) :: keptMarks rest else keptMarks rest
 
-theorem keptMarks_filterList (cond : Path → Node → Bool) (pre : Path) :
+theorem c04_keptMarks_filterList (cond : Path → Node → Bool) (pre : Path) :
     ∀ cs : List (Key × Node), keptMarks (filterList cond pre cs).1 = keptChildren cond pre cs
   | [] => rfl
   | (name, child) :: rest => by
-    simp only [filterList, keptMarks, keptChildren, keptMarks_filterList cond pre rest]
+    simp only [filterList, keptMarks, keptChildren, c04_keptMarks_filterList cond pre rest]
 
-theorem akeys_dropMarks_filterList (cond : Path → Node → Bool) (pre : Path) :
+theorem c04_akeys_dropMarks_filterList (cond : Path → Node → Bool) (pre : Path) :
     ∀ cs : List (Key × Node), akeys (dropMarks (filterList cond pre cs).1) = akeys cs
   | [] => rfl
   | (name, child) :: rest => by
-    simp [filterList, dropMarks, akeys, akeys_dropMarks_filterList cond pre rest]
+    simp [filterList, dropMarks, akeys, c04_akeys_dropMarks_filterList cond pre rest]
 
-theorem aerase_of_not_mem {α : Type} (k : Key) : ∀ l : List (Key × α), k ∉ akeys l → aerase k l = l
+theorem c04_aerase_of_not_mem {α : Type} (k : Key) : ∀ l : List (Key × α), k ∉ akeys l → aerase k l = l
   | [], _ => rfl
   | (k', v) :: rest, h => by
     have h' : ¬ k = k' ∧ k ∉ akeys rest := by simpa [akeys] using h
     have hne : ¬ k' = k := fun e => h'.1 e.symm
-    simp [aerase, hne, aerase_of_not_mem k rest h'.2]
+    simp [aerase, hne, c04_aerase_of_not_mem k rest h'.2]
 
 /-- removing names that are not keys does nothing (mapping) -/
-theorem removeMany_dict_skip (f : Flags) (k : CompKind) (hk : k.isDictFam = true) :
+theorem c04_removeMany_dict_skip (f : Flags) (k : CompKind) (hk : k.isDictFam = true) :
     ∀ (names : List Key) (cs : List (Key × Node)), (∀ nm ∈ names, nm ∉ akeys cs) →
       removeMany f k names cs = cs
   | [], _, _ => rfl
@@ -254,10 +254,10 @@ theorem removeMany_dict_skip (f : Flags) (k : CompKind) (hk : k.isDictFam = true
       | false => rfl
       | true => exact absurd ((ahas_iff_mem nm cs).1 hh) (h nm List.mem_cons_self)
     simp only [removeMany, removeChild, hk, h1, if_true, Bool.false_eq_true, if_false]
-    exact removeMany_dict_skip f k hk rest cs (fun x hx => h x (List.mem_cons_of_mem _ hx))
+    exact c04_removeMany_dict_skip f k hk rest cs (fun x hx => h x (List.mem_cons_of_mem _ hx))
 
 /-- in a mapping `remove_child` for every name is `del d[name]` for the names that are keys -/
-theorem removeMany_dict_cons (f : Flags) (k : CompKind) (hk : k.isDictFam = true) (nm : Key)
+theorem c04_removeMany_dict_cons (f : Flags) (k : CompKind) (hk : k.isDictFam = true) (nm : Key)
     (rest : List Key) (cs : List (Key × Node)) :
     removeMany f k (nm :: rest) cs = removeMany f k rest (aerase nm cs) := by
   simp only [removeMany, removeChild, hk, if_true]
@@ -266,26 +266,26 @@ theorem removeMany_dict_cons (f : Flags) (k : CompKind) (hk : k.isDictFam = true
   | false =>
     have : nm ∉ akeys cs := fun hm => by
       rw [(ahas_iff_mem nm cs).2 hm] at hh; cases hh
-    simp only [Bool.false_eq_true, if_false, aerase_of_not_mem nm cs this]
+    simp only [Bool.false_eq_true, if_false, c04_aerase_of_not_mem nm cs this]
 
-theorem not_mem_akeys_aerase {α : Type} {key : Key} (nm : Key) {cs : List (Key × α)}
+theorem c04_not_mem_akeys_aerase {α : Type} {key : Key} (nm : Key) {cs : List (Key × α)}
     (h : key ∉ akeys cs) : key ∉ akeys (aerase nm cs) := by
   rw [keysOf_aerase]
   exact fun hm => h (List.mem_of_mem_erase hm)
 
 /-- `removeMany` in a mapping distributes over a head entry that is not named -/
-theorem removeMany_dict_cons_keep (f : Flags) (k : CompKind) (hk : k.isDictFam = true) (key : Key) (v : Node) :
+theorem c04_removeMany_dict_cons_keep (f : Flags) (k : CompKind) (hk : k.isDictFam = true) (key : Key) (v : Node) :
     ∀ (names : List Key) (cs : List (Key × Node)), key ∉ names →
       removeMany f k names ((key, v) :: cs) = (key, v) :: removeMany f k names cs
   | [], _, _ => rfl
   | nm :: rest, cs, h => by
     have h' : ¬ key = nm ∧ key ∉ rest := by simpa using h
-    rw [removeMany_dict_cons f k hk, removeMany_dict_cons f k hk]
+    rw [c04_removeMany_dict_cons f k hk, c04_removeMany_dict_cons f k hk]
     simp only [aerase, h'.1, if_false]
-    exact removeMany_dict_cons_keep f k hk key v rest _ h'.2
+    exact c04_removeMany_dict_cons_keep f k hk key v rest _ h'.2
 
 /-- names that are not keys can be dropped from the removal list -/
-theorem removeMany_dict_filter_absent (f : Flags) (k : CompKind) (hk : k.isDictFam = true) (key : Key) :
+theorem c04_removeMany_dict_filter_absent (f : Flags) (k : CompKind) (hk : k.isDictFam = true) (key : Key) :
     ∀ (names : List Key) (cs : List (Key × Node)), key ∉ akeys cs →
       removeMany f k names cs = removeMany f k (names.filter (· != key)) cs
   | [], _, _ => rfl
@@ -293,14 +293,14 @@ theorem removeMany_dict_filter_absent (f : Flags) (k : CompKind) (hk : k.isDictF
     by_cases e : x = key
     · subst e
       have hf : (x :: xs).filter (· != x) = xs.filter (· != x) := by simp
-      rw [hf, removeMany_dict_cons f k hk, aerase_of_not_mem x cs hc]
-      exact removeMany_dict_filter_absent f k hk x xs cs hc
+      rw [hf, c04_removeMany_dict_cons f k hk, c04_aerase_of_not_mem x cs hc]
+      exact c04_removeMany_dict_filter_absent f k hk x xs cs hc
     · have hf : (x :: xs).filter (· != key) = x :: xs.filter (· != key) := by simp [e]
-      rw [hf, removeMany_dict_cons f k hk, removeMany_dict_cons f k hk]
-      exact removeMany_dict_filter_absent f k hk key xs _ (not_mem_akeys_aerase x hc)
+      rw [hf, c04_removeMany_dict_cons f k hk, c04_removeMany_dict_cons f k hk]
+      exact c04_removeMany_dict_filter_absent f k hk key xs _ (c04_not_mem_akeys_aerase x hc)
 
 /-- `removeMany` in a mapping drops a head entry that is named (its key occurs nowhere else) -/
-theorem removeMany_dict_cons_drop (f : Flags) (k : CompKind) (hk : k.isDictFam = true) (key : Key) (v : Node) :
+theorem c04_removeMany_dict_cons_drop (f : Flags) (k : CompKind) (hk : k.isDictFam = true) (key : Key) (v : Node) :
     ∀ (names : List Key) (cs : List (Key × Node)), key ∈ names → key ∉ akeys cs →
       removeMany f k names ((key, v) :: cs) = removeMany f k (names.filter (· != key)) cs
   | [], _, h, _ => by simp at h
@@ -308,36 +308,36 @@ theorem removeMany_dict_cons_drop (f : Flags) (k : CompKind) (hk : k.isDictFam =
     by_cases e : nm = key
     · subst e
       have hf : (nm :: rest).filter (· != nm) = rest.filter (· != nm) := by simp
-      rw [hf, removeMany_dict_cons f k hk]
+      rw [hf, c04_removeMany_dict_cons f k hk]
       simp only [aerase, if_true]
-      exact removeMany_dict_filter_absent f k hk nm rest cs hc
+      exact c04_removeMany_dict_filter_absent f k hk nm rest cs hc
     · have h' : key ∈ rest := by
         rcases List.mem_cons.1 h with h | h
         · exact absurd h.symm e
         · exact h
       have hne : ¬ key = nm := fun x => e x.symm
       have hf : (nm :: rest).filter (· != key) = nm :: rest.filter (· != key) := by simp [e]
-      rw [hf, removeMany_dict_cons f k hk, removeMany_dict_cons f k hk]
+      rw [hf, c04_removeMany_dict_cons f k hk, c04_removeMany_dict_cons f k hk]
       simp only [aerase, hne, if_false]
-      exact removeMany_dict_cons_drop f k hk key v rest _ h' (not_mem_akeys_aerase nm hc)
+      exact c04_removeMany_dict_cons_drop f k hk key v rest _ h' (c04_not_mem_akeys_aerase nm hc)
 
-theorem notKeptNames_subset : ∀ (l : List (Key × Node × Bool)) (x : Key),
+theorem c04_notKeptNames_subset : ∀ (l : List (Key × Node × Bool)) (x : Key),
     x ∈ notKeptNames l → x ∈ akeys (dropMarks l)
   | [], _, h => by simp [notKeptNames] at h
   | (k, n, b) :: rest, x, h => by
     cases b with
     | true =>
       simp only [notKeptNames, if_true] at h
-      simp [dropMarks, akeys, notKeptNames_subset rest x h]
+      simp [dropMarks, akeys, c04_notKeptNames_subset rest x h]
     | false =>
       simp only [notKeptNames, Bool.false_eq_true, if_false, List.mem_cons] at h
       rcases h with h | h
       · simp [dropMarks, akeys, h]
-      · simp [dropMarks, akeys, notKeptNames_subset rest x h]
+      · simp [dropMarks, akeys, c04_notKeptNames_subset rest x h]
 
 /-- removing the unmarked names (in any order, with repetitions) from a mapping with distinct keys
     leaves the marked entries -/
-theorem removeMany_marks (f : Flags) (k : CompKind) (hk : k.isDictFam = true) :
+theorem c04_removeMany_marks (f : Flags) (k : CompKind) (hk : k.isDictFam = true) :
     ∀ (l : List (Key × Node × Bool)) (names : List Key), keysNodup (dropMarks l) = true →
       (∀ x, x ∈ names ↔ x ∈ notKeptNames l) →
       removeMany f k names (dropMarks l) = keptMarks l
@@ -354,15 +354,15 @@ theorem removeMany_marks (f : Flags) (k : CompKind) (hk : k.isDictFam = true) :
         intro hm
         have := (h key).1 hm
         simp only [notKeptNames, if_true] at this
-        exact hn'.1 (notKeptNames_subset rest key this)
+        exact hn'.1 (c04_notKeptNames_subset rest key this)
       simp only [dropMarks, keptMarks, if_true]
-      rw [removeMany_dict_cons_keep f k hk key n names _ hnot]
-      rw [removeMany_marks f k hk rest names hn'.2 (by simpa [notKeptNames] using h)]
+      rw [c04_removeMany_dict_cons_keep f k hk key n names _ hnot]
+      rw [c04_removeMany_marks f k hk rest names hn'.2 (by simpa [notKeptNames] using h)]
     | false =>
       have hin : key ∈ names := (h key).2 (by simp [notKeptNames])
       simp only [dropMarks, keptMarks, Bool.false_eq_true, if_false]
-      rw [removeMany_dict_cons_drop f k hk key n names _ hin hn'.1]
-      apply removeMany_marks f k hk rest _ hn'.2
+      rw [c04_removeMany_dict_cons_drop f k hk key n names _ hin hn'.1]
+      apply c04_removeMany_marks f k hk rest _ hn'.2
       intro x
       simp only [List.mem_filter, bne_iff_ne, ne_eq]
       constructor
@@ -376,18 +376,18 @@ theorem removeMany_marks (f : Flags) (k : CompKind) (hk : k.isDictFam = true) :
         refine ⟨(h x).2 (by simp [notKeptNames, hx]), ?_⟩
         intro e
         subst e
-        exact hn'.1 (notKeptNames_subset rest x hx)
+        exact hn'.1 (c04_notKeptNames_subset rest x hx)
 
 /-- `filter_nodes` on a mapping with distinct keys: exactly the kept children remain, in order -/
-theorem filterNode_dict_kept (cond : Path → Node → Bool) (pre : Path) (f : Flags) (k : CompKind)
+theorem c04_filterNode_dict_kept (cond : Path → Node → Bool) (pre : Path) (f : Flags) (k : CompKind)
     (cs : List (Key × Node)) (hk : k.isDictFam = true) (hn : keysNodup cs = true) :
     (filterNode cond pre (.comp f k cs)).1 = .comp f k (keptChildren cond pre cs) := by
   have hn' : keysNodup (dropMarks (filterList cond pre cs).1) = true := by
-    rw [keysNodup_congr _ cs (akeys_dropMarks_filterList cond pre cs)]; exact hn
+    rw [keysNodup_congr _ cs (c04_akeys_dropMarks_filterList cond pre cs)]; exact hn
   simp only [filterNode]
-  rw [removeMany_marks f k hk _ _ hn' (fun x => by simp), keptMarks_filterList]
+  rw [c04_removeMany_marks f k hk _ _ hn' (fun x => by simp), c04_keptMarks_filterList]
 
-theorem mem_akeys_keptChildren (cond : Path → Node → Bool) (pre : Path) (key : Key) :
+theorem c04_mem_akeys_keptChildren (cond : Path → Node → Bool) (pre : Path) (key : Key) :
     ∀ cs : List (Key × Node), keysNodup cs = true →
       (key ∈ akeys (keptChildren cond pre cs) ↔
         ∃ c, alookup key cs = some c ∧
@@ -396,7 +396,7 @@ theorem mem_akeys_keptChildren (cond : Path → Node → Bool) (pre : Path) (key
   | [], _ => by simp [keptChildren, akeys, alookup]
   | (name, child) :: rest, hn => by
     have hn' : name ∉ akeys rest ∧ keysNodup rest = true := by simpa [keysNodup] using hn
-    have ih := mem_akeys_keptChildren cond pre key rest hn'.2
+    have ih := c04_mem_akeys_keptChildren cond pre key rest hn'.2
     by_cases e : name = key
     · subst e
       have hnot : name ∉ akeys (keptChildren cond pre rest) := by
@@ -438,22 +438,22 @@ def allKeptList (cond : Path → Node → Bool) (pre : Path) : List (Key × Node
 end
 
 mutual
-theorem filterNode_allKept (cond : Path → Node → Bool) :
+theorem c04_filterNode_allKept (cond : Path → Node → Bool) :
     ∀ (pre : Path) (n : Node), allKept cond pre n = true → (filterNode cond pre n).1 = n
   | pre, .leaf f k, _ => by simp [filterNode]
   | pre, .comp f k cs, h => by
     have h' : allKeptList cond pre cs = true := by simpa [allKept] using h
-    obtain ⟨h1, h2⟩ := filterList_allKept cond pre cs h'
+    obtain ⟨h1, h2⟩ := c04_filterList_allKept cond pre cs h'
     simp [filterNode, dropMarks_all_kept _ h1, h2, removeMany]
-theorem filterList_allKept (cond : Path → Node → Bool) :
+theorem c04_filterList_allKept (cond : Path → Node → Bool) :
     ∀ (pre : Path) (cs : List (Key × Node)), allKeptList cond pre cs = true →
       (∀ x ∈ (filterList cond pre cs).1, x.2.2 = true) ∧ dropMarks (filterList cond pre cs).1 = cs
   | _, [], _ => by simp [filterList, dropMarks]
   | pre, (name, child) :: rest, h => by
     have h' : (cond (pre ++ [name]) child = true ∧ allKept cond (pre ++ [name]) child = true) ∧
         allKeptList cond pre rest = true := by simpa [allKeptList] using h
-    have e := filterNode_allKept cond (pre ++ [name]) child h'.1.2
-    obtain ⟨r1, r2⟩ := filterList_allKept cond pre rest h'.2
+    have e := c04_filterNode_allKept cond (pre ++ [name]) child h'.1.2
+    obtain ⟨r1, r2⟩ := c04_filterList_allKept cond pre rest h'.2
     simp only [filterList, dropMarks, r2, h'.1.1, e, Bool.true_or, and_true]
     intro x hx
     rcases List.mem_cons.1 hx with hx | hx
@@ -461,16 +461,16 @@ theorem filterList_allKept (cond : Path → Node → Bool) :
     · exact r1 x hx
 end
 
-theorem alookup_prioLe (b : Int) (key : Key) : ∀ cs : List (Key × Node), prioLeList b cs = true →
+theorem c04_alookup_prioLe (b : Int) (key : Key) : ∀ cs : List (Key × Node), prioLeList b cs = true →
     ∀ c, alookup key cs = some c → prioLe b c = true
   | [], _, c, h => by simp [alookup] at h
   | (k', v') :: r, hp, c, h => by
     have h' : prioLe b v' = true ∧ prioLeList b r = true := by simpa [prioLeList] using hp
     by_cases hk : k' = key
     · simp [alookup, hk] at h; subst h; exact h'.1
-    · simp [alookup, hk] at h; exact alookup_prioLe b key r h'.2 c h
+    · simp [alookup, hk] at h; exact c04_alookup_prioLe b key r h'.2 c h
 
-theorem prioLe_firstNotMissing (b : Int) : ∀ (p : Path) (n : Node), prioLe b n = true →
+theorem c04_prioLe_firstNotMissing (b : Int) : ∀ (p : Path) (n : Node), prioLe b n = true →
     prioLe b (firstNotMissing n p) = true
   | [], n, h => by cases n <;> simpa [firstNotMissing] using h
   | key :: rest, .leaf f k, h => by simpa [firstNotMissing] using h
@@ -480,39 +480,39 @@ theorem prioLe_firstNotMissing (b : Int) : ∀ (p : Path) (n : Node), prioLe b n
     | none => exact h
     | some c =>
       have : ePrio f ≤ b ∧ prioLeList b cs = true := by simpa [prioLe] using h
-      exact prioLe_firstNotMissing b rest c (alookup_prioLe b key cs this.2 c hl)
+      exact c04_prioLe_firstNotMissing b rest c (c04_alookup_prioLe b key cs this.2 c hl)
 
-theorem hasPrio_true_of_ge {a b : Flags} (h : ePrio b ≤ ePrio a) : hasPrio a b true = true := by
+theorem c04_hasPrio_true_of_ge {a b : Flags} (h : ePrio b ≤ ePrio a) : hasPrio a b true = true := by
   unfold hasPrio
   split
   · rfl
   · simp only [decide_eq_true_eq]; omega
 
 /-- `keep_if_exists` of the list merge holds when no priority of `self` exceeds one of `other` -/
-theorem keepIfExists_of_prio {b : Int} {s : Node} (hs : prioLe b s = true) (p : Path) {m : Node}
+theorem c04_keepIfExists_of_prio {b : Int} {s : Node} (hs : prioLe b s = true) (p : Path) {m : Node}
     (hm : prioGe b m = true) : keepIfExists s p m = true := by
-  have h1 := prioLe_flags (prioLe_firstNotMissing b p s hs)
-  have h2 := prioGe_flags hm
+  have h1 := c04_prioLe_flags (c04_prioLe_firstNotMissing b p s hs)
+  have h2 := c04_prioGe_flags hm
   simp only [keepIfExists]
   split
   · rfl
-  · exact hasPrio_true_of_ge (by omega)
+  · exact c04_hasPrio_true_of_ge (by omega)
 
 mutual
-theorem allKept_of_prio {b : Int} {s : Node} (hs : prioLe b s = true) :
+theorem c04_allKept_of_prio {b : Int} {s : Node} (hs : prioLe b s = true) :
     ∀ (pre : Path) (n : Node), prioGe b n = true → allKept (keepIfExists s) pre n = true
   | _, .leaf .., _ => rfl
   | pre, .comp f k cs, h => by
     have : b ≤ ePrio f ∧ prioGeList b cs = true := by simpa [prioGe] using h
-    simpa [allKept] using allKeptList_of_prio hs pre cs this.2
-theorem allKeptList_of_prio {b : Int} {s : Node} (hs : prioLe b s = true) :
+    simpa [allKept] using c04_allKeptList_of_prio hs pre cs this.2
+theorem c04_allKeptList_of_prio {b : Int} {s : Node} (hs : prioLe b s = true) :
     ∀ (pre : Path) (cs : List (Key × Node)), prioGeList b cs = true →
       allKeptList (keepIfExists s) pre cs = true
   | _, [], _ => rfl
   | pre, (name, c) :: rest, h => by
     have h' : prioGe b c = true ∧ prioGeList b rest = true := by simpa [prioGeList] using h
-    simp [allKeptList, keepIfExists_of_prio hs _ h'.1, allKept_of_prio hs _ c h'.1,
-      allKeptList_of_prio hs pre rest h'.2]
+    simp [allKeptList, c04_keepIfExists_of_prio hs _ h'.1, c04_allKept_of_prio hs _ c h'.1,
+      c04_allKeptList_of_prio hs pre rest h'.2]
 end
 
 end AY
